@@ -98,3 +98,59 @@ def s2k_usage_tables(ctx, P):
                     comp_ok &= (back is not None and lo <= back <= hi)
     ctx.check(P + ':S05-4:usage-roundtrip', 'R-table', 'encode(parse(decode(octet))) = octet for every usage octet class', comp_ok and bool(t2),
               table=dict(decode=[list(x) for x in t1], parse={a: sorted(v) for a, v in t2.items()}, encode=t3))
+
+
+def lossless_bool_subpackets(ctx, P):
+    """Boolean subpackets (exportable, revocable, primary user id) are re-serialised as 0/1 when a signature is hashed or written,
+    so the parser must not collapse other octet values into a boolean: it either rejects them or the re-encoding differs from the
+    packet (a signature would verify over bytes that are not in the packet; parse/serialise would not be inverse)."""
+    from rules.common import single_defs, resolve_value
+    from valueset import VS, param_root
+    n = 0
+    for p, r in sorted(ctx.f.bodies.items()):
+        if not p.startswith('packet::signature::de::') or r.get('kind') == 'Closure':
+            continue
+        b = ctx.wrap(r)
+        defs = single_defs(b)
+        sites = []
+        for i, k, s in b.constructs(r'SubpacketData$'):
+            if len(s['r']['o']) != 1:
+                continue
+            o = s['r']['o'][0]
+            ty = b.r['locals'][o['l']]['ty'] if 'l' in o and not o['pr'] else None
+            if ty != 'bool':
+                continue
+            sites.append((i, s['r']['v'], o))
+        if not sites:
+            ctx.functions.discard(p)
+            continue
+        for i, var, o in sites:
+            n += 1
+            kind, v = resolve_value(b, o, defs)
+            key = '%s:S05-8:lossless-bool:%s' % (P, var)
+            desc = 'the boolean octet of a %s subpacket is parsed without collapsing values other than 0/1' % var
+            if kind == 'rv' and v['k'] == 'bin' and v['op'] in ('Eq', 'Ne', 'Gt', 'Ge', 'Lt', 'Le'):
+                ctx.violation(key, 'R-table', desc, function=p, site='%s:%d' % (b.r['file'], b.line(i)),
+                              missing='`octet %s const` maps 254 octet values to one boolean; hashing/serialising re-encodes them as 0/1' % v['op'])
+                continue
+            # value comes out of a helper (through `?`): the helper must partition 0 / 1 / rest with rest -> Err
+            og = b.operand_origins(o)
+            helpers = [t[5:] for t in og if t.startswith('call:') and ctx.f.body(t[5:]) is not None and t[5:].startswith('packet::signature::de::')]
+            ok = False
+            tab = None
+            for h in helpers:
+                hb = ctx.wrap(ctx.f.body(h))
+                vs = VS(hb, param_root(1), 255)
+                def oc(trace, val, hb=hb):
+                    ev = set()
+                    for j in trace:
+                        for s2 in hb.blocks[j]['s']:
+                            if s2['d']['l'] == 0 and s2['r']['k'] == 'agg' and s2['r'].get('v') in ('Ok', 'Err'):
+                                x = s2['r']['o'][0]
+                                ev.add(s2['r']['v'] + (':%s' % x['k'].get('v') if 'k' in x and 'v' in x['k'] else ''))
+                    return tuple(sorted(ev))
+                tab = vs.classify(oc)
+                if [(lo, hi) for lo, hi, _ in tab] == [(0, 0), (1, 1), (2, 255)] and tab[0][2] == ('Ok:0',) and tab[1][2] == ('Ok:1',) and tab[2][2] == ('Err',):
+                    ok = True
+            ctx.check(key, 'R-table', desc, ok, function=p, site='%s:%d' % (b.r['file'], b.line(i)), table=[list(x) for x in tab] if tab else None)
+    ctx.floor(P + ':S05-8:floor', 'boolean subpacket parse sites', n, 3)
